@@ -50,6 +50,10 @@ pub struct CtlInner {
     pub next_id: usize,
     pub events: u64,
     pub log: Vec<LogEv>,
+    /// logical time of each log entry
+    pub log_time: Vec<u64>,
+    /// logical time of the last MPC message sent per party
+    pub last_msg_time: Vec<u64>,
     pub msgs_issued: usize,
     pub msgs_delivered: usize,
     /// MPC messages sent per party
@@ -63,13 +67,20 @@ pub struct CtlInner {
 #[derive(Default)]
 pub struct Ctl {
     pub inner: Mutex<CtlInner>,
+    /// shared logical clock (several sessions of one batch share it)
+    pub clock: Arc<std::sync::atomic::AtomicU64>,
 }
 
 impl Ctl {
     pub fn event(&self, ev: LogEv) {
+        let t = self.clock.fetch_add(1, std::sync::atomic::Ordering::SeqCst);
         let mut g = self.inner.lock().unwrap();
         g.events += 1;
         g.log.push(ev);
+        g.log_time.push(t);
+    }
+    pub fn tick(&self) -> u64 {
+        self.clock.fetch_add(1, std::sync::atomic::Ordering::SeqCst)
     }
     pub fn events(&self) -> u64 {
         self.inner.lock().unwrap().events
@@ -139,6 +150,8 @@ impl Client {
             g.pending.push(Pending { id, kind, from: self.party, to, tx: Some(tx) });
             g.events += 1;
             g.log.push(LogEv::RpcIssued { id, kind, from: self.party, to });
+            let t = self.ctl.clock.fetch_add(1, std::sync::atomic::Ordering::SeqCst);
+            g.log_time.push(t);
             id
         };
         match rx.await {
@@ -199,6 +212,10 @@ impl PolicyClient for Client {
                             g.msgs_from.resize(me + 1, 0);
                         }
                         g.msgs_from[me] += 1;
+                        if g.last_msg_time.len() <= me {
+                            g.last_msg_time.resize(me + 1, 0);
+                        }
+                        g.last_msg_time[me] = self.ctl.clock.fetch_add(1, std::sync::atomic::Ordering::SeqCst);
                         g.events += 1;
                         None
                     }
@@ -393,3 +410,4 @@ pub async fn quiesce(ctl: &Ctl, baseline_threads: usize) {
 
 pub mod explore;
 pub mod shard;
+pub mod batch;
